@@ -336,9 +336,11 @@ def _chunked_history(nchunks, maxtotal):
     return run
 
 
-for _n, _t in ((2, 8), (3, 7)):
+from pyvc.harness import thorough as _thorough   # noqa: E402
+
+for _n, _t in ((2, 8), (3, 7)) + (((3, 10), (4, 7)) if _thorough() else ()):
     harness('c04.chunked_history.bounded[reads=%d,bytes<=%d]' % (_n, _t), ['C04', 'C12'], kind='bounded', functions=[RECV, FP + '.__init__'],
-            replay='c04_chunks', max_paths=60000,
+            replay='c04_chunks', max_paths=400000, timeout_s=600,
             assumptions=['BOUNDED stand-in: %d reads with a total of at most %d bytes (symbolic content and split points), loops unrolled; '
                          'parse_or_ignore through its weakest contract' % (_n, _t)])(_chunked_history(_n, _t))
 
